@@ -230,6 +230,60 @@ def gen_phs_script(rng, dims, per_dim):
     return news, ops, k
 
 
+def ulp_steps(c0, lo_guard):
+    """consecutive diameters 1 ulp / 2 ulp / 1e-16 relative apart around c0, tightening and relaxing"""
+    up, dn = (lambda x: math.nextafter(x, math.inf)), (lambda x: math.nextafter(x, -math.inf))
+    seq = [c0, up(c0), up(up(c0)), up(c0), c0, dn(c0), dn(dn(c0)), dn(c0), c0, c0 * (1 + 1e-16), c0 * (1 + 2.3e-16),
+           c0 * (1 - 1e-16), up(up(up(c0))), c0, c0 + 1e-16, c0 + 2e-16, c0 + 3e-16, c0 + 1e-16, c0, c0 - 1e-16, c0]
+    return [c for c in seq if c > lo_guard]
+
+
+def gen_ulp_script(rng, dims, per_dim):
+    """ONE object, many setTransverseDiameter calls whose consecutive values are a few ulps / 1e-16 apart.  Foci
+    (-a,0,…), (a,0,…) with a = 3·2^k, 5·2^k, …: cmin, conj radius and the exact surface points are then bit-identical
+    in the code, the model and this oracle, so the tolerances stay at 1e-12 and the flags are compared strictly."""
+    news, ops = [], []
+    k = 0
+    for n in dims:
+        for rep in range(per_dim):
+            a, b, hyp = rng.choice(EXACT2D)
+            e = [-12, -10, -3, -2, 0][(rep + n) % 5] if rep < 5 else rng.choice([-12, -10, -3, -2, 0])
+            sc = 2.0 ** e / (2.0 if hyp > 10 else 1.0)
+            A, B_, H = a * sc, b * sc, hyp * sc
+            f1 = [-A] + [0.0] * (n - 1)
+            f2 = [A] + [0.0] * (n - 1)
+            cmin = 2 * A
+            news.append("new %d %s %s" % (n, vb(f1), vb(f2)))
+            meta0 = {"k": k, "n": n, "f1": f1, "f2": f2, "cmin": cmin, "exact": True}
+            c0 = 2 * H
+            onpts = [[0.0, B_], [0.0, -B_], [H, 0.0], [-H, 0.0]]
+            u_r = rand_unit(rng, n)
+            up = lambda x: math.nextafter(x, math.inf)
+            just = [cmin + j * math.ulp(cmin) for j in (4, 3, 2, 1, 2, 5, 1000, 1001, 999, 3)]
+            if cmin < 1:
+                just += [cmin + 2.2e-16, cmin + 1e-16, cmin + 3e-16, cmin + 2e-16, cmin + 4.4e-16, cmin + 2.3e-16]
+            for phase, seq in (("surface", ulp_steps(c0, cmin)), ("focal", just)):
+                for c in seq:
+                    S = c + A
+                    m = dict(meta0, c=c, S=S)
+                    ops.append(("setc %d %s" % (k, f2bits(c)), dict(m, kind="setc")))
+                    for j in (0, 1):
+                        ev = [0.0] * n
+                        ev[j] = 1.0
+                        ops.append(("tf %d %s" % (k, vb(ev)), dict(m, kind="tf-axis", u=ev, j=j)))
+                    ops.append(("tf %d %s" % (k, vb(u_r)), dict(m, kind="tf-surface", u=u_r)))
+                    if phase == "surface":
+                        for x in onpts:
+                            x = x + [0.0] * (n - 2)
+                            ops.append(("pt %d %s" % (k, vb(x)), dict(m, kind="pt", x=x, strict=True)))
+                    else:
+                        x = [A * rng.uniform(-0.9, 0.9), math.sqrt(max(c * c - cmin * cmin, 0.0)) / 2 * rng.uniform(0.2, 1.5)] + [0.0] * (n - 2)
+                        ops.append(("pt %d %s" % (k, vb(x)), dict(m, kind="pt", x=x, strict=True)))
+                    ops.append(("meas %d %s" % (k, f2bits(c)), dict(m, kind="meas")))
+            k += 1
+    return news, ops, k
+
+
 def check_rot(n, f1, f2, R):
     """RtR = I and R e1 = (f2-f1)/cmin at 1e-9 (column-major R)"""
     cols = [R[j * n:(j + 1) * n] for j in range(n)]
@@ -265,11 +319,22 @@ def phs_oracle(line, meta, out):
             return "setTransverseDiameter(%r) failed: %s" % (c, out)
         m = bits2f(d["~m"])
         want = phs_meas(n, cmin, c)
-        return None if relclose(m, want, meas_tol(n, cmin, c)) else "getPhsMeasure %r, analytic volume %r" % (m, want)
+        tol = TOL if meta.get("exact") else meas_tol(n, cmin, c)
+        return None if relclose(m, want, tol) else "getPhsMeasure %r after setTransverseDiameter(%r), analytic volume for that diameter %r" % (m, c, want)
+    if kind == "tf-axis":
+        if "~x" not in d:
+            return "transform failed: " + out
+        x = fvec(d["~x"])
+        centre = [0.5 * (p + q) for p, q in zip(meta["f1"], meta["f2"])]
+        r = dist(x, centre)
+        want = c / 2 if meta["j"] == 0 else math.sqrt(c * c - cmin * cmin) / 2
+        if abs(r - want) > 1e-12 * want + 4 * EPS * max(abs(v) for v in centre + [0.0]):
+            return "image of unit vector e%d lies %r from the centre; the radius for the current diameter %r is %r" % (meta["j"] + 1, r, c, want)
+        return None
     if kind == "meas":
         cc = bits2f(line.split()[2])
         m = bits2f(d["~m"])
-        return None if relclose(m, phs_meas(n, cmin, cc), meas_tol(n, cmin, cc)) else "getPhsMeasure(c) %r, analytic volume %r" % (m, phs_meas(n, cmin, cc))
+        return None if relclose(m, phs_meas(n, cmin, cc), TOL if meta.get("exact") else meas_tol(n, cmin, cc)) else "getPhsMeasure(c) %r, analytic volume %r" % (m, phs_meas(n, cmin, cc))
     if kind in ("tf-surface", "tf-interior"):
         if "~pl" not in d:
             return "transform failed: " + out
@@ -296,11 +361,27 @@ def phs_oracle(line, meta, out):
     return None
 
 
-def run_phs_scripts(ck, hbin, rng, nscripts, dims, per_dim, cmpst, tag="phs"):
+def phs_history(hdr, news, rots, body, upto, k):
+    """minimal replayable script for PHS k: its `new`/`rot` lines and EVERY earlier setc on it (the object's history
+    matters), then the failing op; the PHS is renumbered 0"""
+    def ren(l):
+        t = l.split()
+        t[1] = "0"
+        return " ".join(t)
+    out = [hdr, news[k], ren(rots[k])]
+    for l in body[:upto]:
+        t = l.split()
+        if t[0] == "setc" and t[1] == str(k):
+            out.append(ren(l))
+    out.append(ren(body[upto]))
+    return out
+
+
+def run_phs_scripts(ck, hbin, rng, nscripts, dims, per_dim, cmpst, tag="phs", gen=None):
     bad = 0
     for si in range(nscripts):
         r = rng.fork("%s%d" % (tag, si))
-        news, ops, npx = gen_phs_script(r, dims, per_dim)
+        news, ops, npx = (gen or gen_phs_script)(r, dims, per_dim)
         hdr = "phs seed=%d" % (1 + r.below(10 ** 6))
         pre = [hdr] + news + ["probe %d" % k for k in range(npx)]
         out, rc, err = ck.run_bin(hbin, pre)
@@ -337,7 +418,7 @@ def run_phs_scripts(ck, hbin, rng, nscripts, dims, per_dim, cmpst, tag="phs"):
             o = impl[i]
             ck.count("op:" + ln.split()[0])
             ck.count("case:" + m["kind"])
-            ck.case((ln,), m["kind"] in ("tf-surface", "tf-interior", "pt", "pt-on", "setc", "meas"))
+            ck.case((ln,), m["kind"] in ("tf-surface", "tf-interior", "tf-axis", "pt", "pt-on", "setc", "meas"))
             f = None
             if m["kind"] == "rot":
                 f = None if o == "rot hyp=1" else "rotation line: " + o
@@ -345,34 +426,29 @@ def run_phs_scripts(ck, hbin, rng, nscripts, dims, per_dim, cmpst, tag="phs"):
                 f = phs_oracle(ln, m, o)
             if f is not None:
                 k = m.get("k")
-                small = [hdr] + ([news[k].replace("new", "new", 1)] if k is not None else [])
-                # minimal script: the one PHS (renumbered 0), its setc and the failing op
-                if k is not None:
-                    parts = ln.split()
-                    parts[1] = "0"
-                    small += ["setc 0 %s" % f2bits(m["c"])] if "c" in m and not ln.startswith("setc") else []
-                    small += [" ".join(parts)]
-                else:
-                    small += [ln]
+                body = [l for l, _ in ops]
+                small = phs_history(hdr, news, rots, body, i - len(news) - len(rots), k) if k is not None else [hdr, ln]
                 ck.report({"engine": "phs", "class": "phs-" + m["kind"], "what": f}, script=small, observed=[o], expected=[f])
                 ck.log("PHS oracle failure: %s (%s)" % (f, ln[:80]))
                 bad += 1
                 if bad >= 3:
                     return bad
             mt = TOL
-            if m["kind"] == "setc":
+            if m["kind"] == "setc" and not m.get("exact"):
                 mt = meas_tol(m["n"], m["cmin"], m["c"])
-            elif m["kind"] == "meas":
+            elif m["kind"] == "meas" and not m.get("exact"):
                 mt = meas_tol(m["n"], m["cmin"], bits2f(ln.split()[2]))
             xa = 0.0
-            if m["kind"] in ("tf-surface", "tf-interior") and m["cmin"] < m["c"] < m["cmin"] * 1.001:
+            if m["kind"] in ("tf-surface", "tf-interior") and not m.get("exact") and m["cmin"] < m["c"] < m["cmin"] * 1.001:
                 # conjugate radius sqrt(c^2-cmin^2)/2: a one-ulp difference in cmin is amplified by the cancellation
                 xa = 16 * EPS * m["c"] / math.sqrt(2 * (m["c"] - m["cmin"]) / m["cmin"])
             d = cmpst.line(o, model[i] if i < len(model) else "<missing>", m.get("S", 1.0), mtol=mt, xabs=xa,
-                           soft_flags=(m["kind"] == "pt" and abs(bits2f(fields(o)[1].get("~pl", "0")) - m["c"]) <= TOL * m["S"]) if m["kind"] == "pt" and "~pl" in fields(o)[1] else False)
+                           soft_flags=(m["kind"] == "pt" and not m.get("strict") and abs(bits2f(fields(o)[1].get("~pl", "0")) - m["c"]) <= TOL * m["S"]) if m["kind"] == "pt" and "~pl" in fields(o)[1] else False)
             if d is not None and f is None:
                 ck.disagreements += 1
-                ck.report({"engine": "phs", "class": "correspondence", "what": d}, script=script[:1] + news + rots + [ln], expected=[model[i] if i < len(model) else "<missing>"],
+                ck.report({"engine": "phs", "class": "correspondence", "what": d},
+                          script=(phs_history(hdr, news, rots, [l for l, _ in ops], i - len(news) - len(rots), m["k"]) if "k" in m and i >= len(news) + len(rots) else script[:i + 2]),
+                          expected=[model[i] if i < len(model) else "<missing>"],
                           observed=[o], found_input=False,
                           obligation="correspondence phs: ProlateHyperspheroid/GeometricEquations vs OmplModel.Model.Phs (%s: %s)" % (ln.split()[0], d))
                 ck.log("model/implementation disagreement on %s: %s" % (ln[:60], d))
@@ -572,7 +648,7 @@ def judge_smp(ck, hbin, script, metas, P, cmpst, tag, nonmonotone):
                 f = "PHS list after update is %s, expected %s" % (d["ids"], alive)
             else:
                 want = 0.0 if m["deg"] else sum(phs_meas(n, cmins[j], c) for j in alive)
-                if not relclose(bits2f(d["~sum"]), want, max(meas_tol(n, cmins[j], c) for j in alive)):
+                if not relclose(bits2f(d["~sum"]), want, TOL if m.get("strict") else max(meas_tol(n, cmins[j], c) for j in alive)):
                     f = "summed measure %r, analytic %r" % (bits2f(d["~sum"]), want)
                 elif not relclose(inf, want / max(len(alive), 1), 1e-9) and d["branch"] != ("B" if inf < want / len(alive) else "P"):
                     f = "branch %s with space measure %r and mean PHS measure %r" % (d["branch"], inf, want / len(alive))
@@ -582,7 +658,7 @@ def judge_smp(ck, hbin, script, metas, P, cmpst, tag, nonmonotone):
             want = min(tot, sum(phs_meas(n, cmins[j], c) for j in m["alive"] if cmins[j] < c))
             if d.get("has") != "1":
                 f = "hasInformedMeasure is false for the direct sampler"
-            elif not relclose(bits2f(d["~m"]), want, max(meas_tol(n, cmins[j], c) for j in m["alive"])):
+            elif not relclose(bits2f(d["~m"]), want, TOL if m.get("strict") else max(meas_tol(n, cmins[j], c) for j in m["alive"])):
                 f = "getInformedMeasure %r, analytic %r" % (bits2f(d["~m"]), want)
         elif kind == "im-rej":
             if d.get("has") != "0" or not relclose(bits2f(d["~m"]), tot):
@@ -598,13 +674,13 @@ def judge_smp(ck, hbin, script, metas, P, cmpst, tag, nonmonotone):
         elif kind == "nin":
             c, x = m["c"], m["x"]
             fs = [focal(x, *pairs[j]) for j in m["alive"]]
-            near = any(abs(v - c) <= TOL * m["S"] for v in fs)
+            near = (not m.get("strict")) and any(abs(v - c) <= TOL * m["S"] for v in fs)
             k = sum(1 for v in fs if v < c)
             if not near and (d["k"] != str(k) or d["any"] != ("1" if k else "0")):
                 f = "numberOfPhsInclusions=%s isInAnyPhs=%s, expected %d" % (d["k"], d["any"], k)
             # "no helpful state excluded": min over ALL start/goal pairs
             allmin = min(focal(x, *p) for p in pairs)
-            if f is None and allmin < c - TOL * m["S"] and d["any"] != "1":
+            if f is None and (allmin < c - TOL * m["S"] or (m.get("strict") and allmin < c)) and d["any"] != "1":
                 f = "a state with heuristic cost %r < %r is in no PHS (it can never be sampled)" % (allmin, c)
                 fclass = "erased-phs-not-restored" if nonmonotone else "helpful-state-excluded"
             ck.count("nin:k=%s" % d.get("k"))
@@ -650,9 +726,9 @@ def judge_smp(ck, hbin, script, metas, P, cmpst, tag, nonmonotone):
                 bad += 1
                 if bad >= 3:
                     return bad
-        mt = max([meas_tol(n, cmins[j], m["c"]) for j in m["alive"]] + [TOL]) if kind in ("upd", "im") else TOL
+        mt = max([meas_tol(n, cmins[j], m["c"]) for j in m["alive"]] + [TOL]) if kind in ("upd", "im") and not m.get("strict") else TOL
         dd = cmpst.line(o, model[i] if i < len(model) else "<missing>", m.get("S", 1.0), mtol=mt,
-                        soft_flags=(kind == "nin" and any(abs(focal(m["x"], *pairs[j]) - m["c"]) <= TOL * m["S"] for j in m["alive"])))
+                        soft_flags=(kind == "nin" and not m.get("strict") and any(abs(focal(m["x"], *pairs[j]) - m["c"]) <= TOL * m["S"] for j in m["alive"])))
         if dd is not None and f is None:
             ck.disagreements += 1
             ck.report({"engine": "phs", "class": "correspondence", "what": dd}, script=script[:i + 2], expected=[model[i] if i < len(model) else "<missing>"],
@@ -699,6 +775,10 @@ def bulk_configs(rng, tier):
     P5 = {"kind": "se3", "n": 3, "lo": -4.0, "hi": 4.0, "starts": [[-1.0, 0.0, 0.5]], "goals": [[1.0, 1.0, -0.5]]}
     add(P5, "direct", lambda cm: cm[0] * 1.3, tests=("quat",), name="se3-1x1")
     add(P5, "rej", lambda cm: cm[0] * 2.5, n=N // 2, tests=("quat",), name="se3-rejection")
+    # three-argument form on compound spaces: the lower bound must be tested on the sampler's own (position-only)
+    # heuristic, not on the full-space one that includes the rotation distance
+    add(P3, "direct", lambda cm: max(cm) * 1.3, minfac=lambda cm: max(cm) * 1.3 * 0.85, n=N // 4, name="se2-three-arg")
+    add(P5, "direct", lambda cm: cm[0] * 1.3, minfac=lambda cm: cm[0] * 1.3 * 0.85, n=N // 4, name="se3-three-arg")
     # cost sweep from just above the focal distance to far beyond the bounds, random problems
     facs = [1 + 1e-9, 1 + 1e-6, 1.001, 1.05, 1.5, 3.0, 30.0, 1e4]
     for i in range(18 if tier == "quick" else 60):
@@ -1042,6 +1122,96 @@ def run_exact(ck, hbin, cmpst):
 
 
 
+# ---------------------------------------------------------------------------------- successive bounds on one object
+def seq_problems(rng):
+    """(P, exact triangle or None, list of cost sequences) — small-scale (focal distance ~1e-3) and unit-scale problems"""
+    out = []
+    for e, (a, b, hyp) in ((-11, (3, 4, 5)), (-3, (3, 4, 5)), (-12, (5, 12, 13))):
+        sc = 2.0 ** e / 3.0 * 3.0
+        A, B_, H = a * sc / 4, b * sc / 4, hyp * sc / 4
+        P = {"kind": "rv", "n": 2, "lo": -1.0, "hi": 1.0, "starts": [[-A, 0.0]], "goals": [[A, 0.0]]}
+        cmin = 2 * A
+        u = math.ulp(cmin)
+        seqs = [[cmin + j * u for j in (6, 5, 4, 3, 2, 3, 2, 5, 8, 7, 6)],
+                ulp_steps(2 * H, cmin)[:12]]
+        if cmin < 1:
+            seqs.append([cmin + d for d in (4.4e-16, 3e-16, 1.6e-16, 0.8e-16, 1.5e-16, 2.9e-16, 2e-16, 1e-16)])
+        out.append((P, (A, B_, H), seqs))
+    # a generic (not axis-aligned) small-scale problem
+    s0 = [rng.uniform(-1e-3, 1e-3), rng.uniform(-1e-3, 1e-3)]
+    g0 = [s0[0] + 1e-3 * rng.uniform(0.3, 1), s0[1] + 1e-3 * rng.uniform(-1, 1)]
+    P = {"kind": "rv", "n": 2, "lo": -1.0, "hi": 1.0, "starts": [s0], "goals": [g0]}
+    cm = dist(s0, g0)
+    c = cm * (1 + 1e-9)
+    seq = [c]
+    for step in (-1, -1, -1, 1, 1, -1, 1, 1, 1, -1):
+        c = math.nextafter(c, math.inf * step)
+        seq.append(c)
+    out.append((P, None, [seq, [cm + 8 * math.ulp(cm) - j * math.ulp(cm) for j in range(6)]]))
+    return out
+
+
+def run_seq(ck, hbin, cmpst, rng):
+    """successive cost bounds one/two ulps or 1e-16 apart on ONE PathLengthDirectInfSampler object:
+    (a) lock-step + oracle of updatePhsDefinitions / isInAnyPhs / getInformedMeasure after each bound (exact surface points);
+    (b) bulk sampling after each bound: every success must have cost < the CURRENT bound."""
+    bad = 0
+    N = 1500 if ck.tier == "quick" else 10000
+    for pi, (P, tri, seqs) in enumerate(seq_problems(rng)):
+        hdr = "phs seed=%d" % (1 + rng.fork("seq%d" % pi).below(10 ** 6))
+        head = [hdr] + prob_lines(P) + ["mk direct 100 %s" % f2bits(0.0)]
+        pairs = pairs_of(P)
+        cmin = dist(*pairs[0])
+        for qi, seq in enumerate(seqs):
+            seq = [c for c in seq if c > cmin]
+            # (b) bulk: harness only
+            script = head + ["bulk %s %d" % (f2bits(c), N) for c in seq]
+            out, rc, err = ck.run_bin(hbin, script, timeout=600)
+            ck.traces_validated += 1
+            ck.count("scripts:seq-bulk")
+            nok = sum(1 for l in (out or []) if l.startswith("s ok=1"))
+            ck.count("seq:samples-ok", nok)
+            ck.evaluations += sum(1 for l in (out or []) if l.startswith("s "))
+            ck.case(("seq-bulk", pi, qi), nok > 0)
+            if out is None or rc != 0 or sum(1 for l in out if l == "bulk done") != len(seq):
+                ck.report({"engine": "phs", "class": "harness-failure", "what": "successive-bound bulk run died"}, script=script,
+                          observed=(out or [])[-3:] + [str(rc), (err or "")[-600:]])
+                bad += 1
+                continue
+            f = sample_lines_fail(script, out)
+            if f is not None:
+                li, idx, what = f
+                ck.report({"engine": "phs", "class": "successive-bounds", "sampler": "direct", "what": what}, script=truncate_at(script, li, idx),
+                          observed=[what], expected=["success => heuristic cost < the bound of the CURRENT call"])
+                ck.log("successive-bounds failure: %s" % what)
+                bad += 1
+            # (a) lock-step on exact problems
+            if tri is None or bad >= 3:
+                continue
+            A, B_, H = tri
+            pre, rc, err = ck.run_bin(hbin, head + ["sprobe"])
+            if not pre or not pre[-1].startswith("sprobe"):
+                ck.report({"engine": "phs", "class": "harness-failure", "what": "sprobe failed (seq)"}, script=head, observed=(pre or []) + [str(rc)])
+                return bad + 1
+            R = fvec(pre[-1].split()[1].split("=", 1)[1])
+            ops = []
+            S = 2 * H + A
+            for c in seq:
+                m = {"kind": "upd", "c": c, "alive": [0], "deg": False, "S": S, "strict": True}
+                ops.append(("upd %s" % f2bits(c), m))
+                ops.append(("im %s" % f2bits(c), dict(m, kind="im")))
+                for x in ([0.0, B_], [H, 0.0], [0.0, -B_], [0.0, math.sqrt(max(c * c - cmin * cmin, 0.0)) / 2 * 0.999],
+                          [0.0, math.sqrt(max(c * c - cmin * cmin, 0.0)) / 2 * 1.001]):
+                    ops.append(("nin %s" % vb(x), dict(m, kind="nin", x=x)))
+            sc2 = head + ["srot 0 %s" % vb(R)] + [l for l, _ in ops]
+            metas = [{"kind": "setup"}] * (len(head)) + [m for _, m in ops]
+            bad += judge_smp(ck, hbin, sc2, metas, P, cmpst, "seq-lockstep", False)
+            if bad >= 3:
+                return bad
+    return bad
+
+
+
 # ---------------------------------------------------------------------------------- the check
 def corpus():
     d = os.path.join(core.VERIF, "corpus", "C15")
@@ -1054,28 +1224,42 @@ def corpus():
 
 
 def sample_lines_fail(script, out):
-    """success oracle on the `s …` lines of a bulk run: (index, what) of the first successful sample that is out of
-    bounds or whose library heuristic is not strictly below the bound of the script's bulk op; None if all pass"""
-    t = script[-1].split()
-    cs = t[1] if t[0] == "bulk" else t[2]
-    c = math.inf if cs == "inf" else bits2f(cs)
-    minc = bits2f(t[1]) if t[0] == "bulk3" else None
+    """success oracle on the `s …` lines of a run with one or more bulk ops on ONE sampler object: every successful
+    sample must be in bounds with the library heuristic strictly below the bound OF ITS OWN bulk op (the current
+    bound).  Returns (script line index of the bulk op, sample index within it, what) for the first failure, else None."""
+    ops = [(i, l.split()) for i, l in enumerate(script) if l.split()[0] in ("bulk", "bulk3")]
+    seg = 0
     idx = -1
     for ln in out:
-        if not ln.startswith("s "):
+        if ln.endswith(" done") and ln.split()[0] in ("bulk", "bulk3"):
+            seg += 1
+            idx = -1
+            continue
+        if not ln.startswith("s ") or seg >= len(ops):
             continue
         idx += 1
         if ln == "s ok=0":
             continue
+        li, t = ops[seg]
+        cs = t[1] if t[0] == "bulk" else t[2]
+        c = math.inf if cs == "inf" else bits2f(cs)
+        minc = bits2f(t[1]) if t[0] == "bulk3" else None
         _, d = fields(ln)
         hc = bits2f(d["hc"])
         if d["inb"] != "1":
-            return idx, "successful sample is outside the space bounds (satisfiesBounds=0): %r" % (fvec(d["x"]),)
+            return li, idx, "successful sample is outside the space bounds (satisfiesBounds=0): %r" % (fvec(d["x"]),)
         if c < math.inf and not hc < c:
-            return idx, "successful sample has heuristic cost %r >= maxCost %r" % (hc, c)
+            return li, idx, "successful sample has heuristic cost %r >= the current maxCost %r (bulk op #%d of the script)" % (hc, c, seg + 1)
         if minc is not None and hc < minc:
-            return idx, "successful sample has heuristic cost %r < minCost %r" % (hc, minc)
+            return li, idx, "successful sample has heuristic cost %r < minCost %r" % (hc, minc)
     return None
+
+
+def truncate_at(script, li, idx):
+    """script up to the failing bulk op, whose sample count becomes idx+1 (earlier bulk ops stay: they are history)"""
+    s2 = list(script[:li + 1])
+    s2[-1] = " ".join(s2[-1].split()[:-1] + [str(idx + 1)])
+    return s2
 
 
 def run_corpus(ck, hbin, cmpst):
@@ -1095,9 +1279,8 @@ def run_corpus(ck, hbin, cmpst):
                 continue
             f = sample_lines_fail(script, out)
             if f is not None:
-                idx, what = f
-                s2 = list(script)
-                s2[-1] = " ".join(s2[-1].split()[:-1] + [str(idx + 1)])
+                li, idx, what = f
+                s2 = truncate_at(script, li, idx)
                 ck.report({"engine": "phs", "class": "corpus-regression", "corpus": name, "what": what}, script=s2, observed=[what],
                           expected=["success => satisfiesBounds and heuristic cost < maxCost"])
                 ck.log("corpus %s: %s" % (name, what))
@@ -1153,6 +1336,9 @@ def run(ck):
     quick = ck.tier == "quick"
     if bad < 3:
         bad += run_phs_scripts(ck, hbin, ck.rng.fork("phs"), 3 if quick else 12, [2, 3, 4, 5, 6, 7, 8], 3 if quick else 5, cmpst)
+    if bad < 3:
+        # one object, consecutive diameters a few ulps / 1e-16 apart (a dropped or approximate "did it change?" test shows here)
+        bad += run_phs_scripts(ck, hbin, ck.rng.fork("ulp"), 1 if quick else 4, [2, 3, 5], 5 if quick else 8, cmpst, tag="phs-ulp", gen=gen_ulp_script)
     nsm = 24 if quick else 150
     for i in range(nsm):
         if bad >= 3:
@@ -1165,6 +1351,8 @@ def run(ck):
         bad += smp_lockstep(ck, hbin, ck.rng.fork("nonmono%d" % i), "smp", cmpst, nonmonotone=True)
     if bad < 3:
         bad += run_exact(ck, hbin, cmpst)
+    if bad < 3:
+        bad += run_seq(ck, hbin, cmpst, ck.rng.fork("seq"))
     if bad < 3:
         bad += run_keep(ck, hbin, ck.rng.fork("keep"))
     if bad < 3:
@@ -1203,10 +1391,10 @@ def replay(ck, data):
         for l in impl:
             if l.startswith("keep "):
                 print(l)
-        if script[-1].split()[0] in ("bulk", "bulk3"):
+        if any(l.split()[0] in ("bulk", "bulk3") for l in script[1:]):
             f = sample_lines_fail(script, impl)
             if f is not None:
-                print("PROPERTY FAILS at sample %d: %s" % f)
+                print("PROPERTY FAILS at script line %d, sample %d: %s" % f)
                 return 1
             print("every successful sample is in bounds with heuristic cost below the bound: no failure on the current tree")
             return 0 if rc == 0 else 1
